@@ -195,6 +195,15 @@ func create(op Op) (*handle, string) {
 		h.m = m
 		h.model = map[string]ref.Value{"A": ref.Int(r.A), "B": ref.Int(r.B), "C": ref.Float(r.C), "D": ref.Str(r.D), "E": ref.Bool(r.E)}
 	case "funcMap":
+		// optional attributes: keys that are declared, but which the function reports as not
+		// available for this value - they are no entries of the map
+		declared := append([]string{}, keys...)
+		for i := 0; i < op.N; i++ {
+			opt := fmt.Sprintf("opt%d", i)
+			if _, clash := h.model[opt]; !clash {
+				declared = append(declared[:i%(len(declared)+1)], append([]string{opt}, declared[i%(len(declared)+1):]...)...)
+			}
+		}
 		fac := value.NewFuncMapFactory[value.Int](func(base value.Int, key string) (value.Value, bool) {
 			for i, k := range keys {
 				if k == key {
@@ -202,7 +211,7 @@ func create(op Op) (*handle, string) {
 				}
 			}
 			return nil, false
-		}, keys...)
+		}, declared...)
 		h.m = fac.Create(value.Int(0))
 	case "binDescr":
 		// the description map of a bin: outer bins have one bound only
